@@ -81,7 +81,7 @@ def install_monitoring(src_root):
 
 class TState:
     __slots__ = ('id', 'name', 'sem', 'status', 'pred', 'deadline', 'thread', 'sched', 'result', 'error',
-                 'fn', 'wait_label', 'timed_out')
+                 'fn', 'wait_label', 'timed_out', 'parent')
 
     def __init__(self, sched, tid, name, fn):
         self.sched, self.id, self.name, self.fn = sched, tid, name, fn
@@ -94,6 +94,7 @@ class TState:
         self.error = None
         self.wait_label = None
         self.timed_out = False
+        self.parent = None
 
 
 class Sched:
@@ -172,6 +173,11 @@ class Sched:
 
     def _enabled(self, me):
         en = [t for t in self.threads if t is not me and self._is_enabled(t)]
+        if not en and not (me is not None and me.status != 'done' and self._is_enabled(me)):
+            # nobody can move: a thread parked in a sleep(0) spin loop simply gets its turn again
+            en = [t for t in self.threads if t is not me and t.status == 'blocked' and t.wait_label == 'spin']
+            if me is not None and me.status == 'blocked' and me.wait_label == 'spin':
+                return [me] + en, True
         if me is not None and me.status != 'done' and self._is_enabled(me):
             return [me] + en, True
         return en, False
@@ -316,6 +322,18 @@ class Sched:
         lp.vname = name
         return lp
 
+    def dispose(self):
+        """Break reference cycles (weakref.finalize registry -> shim lock -> scheduler -> closures -> loops)
+        so that everything of a finished execution is freed."""
+        for t in self.threads:
+            t.fn = t.pred = t.thread = t.result = t.error = None
+            t.sched = None
+        self.threads = []
+        self.trace = []
+        for k in ('loops', 'keep', 'pool_threads'):
+            if hasattr(self, k):
+                setattr(self, k, None)
+
     # ------------------------------------------------------------------ controller
     def run(self, wall_timeout=60.0):
         """Start the execution (called from the uncontrolled controller thread)."""
@@ -412,10 +430,13 @@ class VExecutor:
             except SchedAbort:
                 raise
             except BaseException as e:   # noqa
+                s.point('worker.raise')      # the function has ended, its future is not yet resolved
                 fut.set_exception(e)
             else:
+                s.point('worker.return')
                 fut.set_result(r)
         ts = s.spawn(body, name=f'pool{len(s.threads)}')
+        ts.parent = s.current_id()
         self.workers.append(ts)
         s.pool_threads.append(ts)
         s.point('submit')
@@ -505,23 +526,31 @@ def preemptions(choices, upto):
     return sum(1 for (n, idx, run_en) in choices[:upto] if idx != 0 and run_en)
 
 
-def children(choices, start, bound):
-    """Alternative prefixes (with their expected branching widths) branching at positions >= start."""
+def children(choices, start, bound, fbound=None):
+    """Alternative prefixes (with their expected branching widths) branching at positions >= start.
+
+    bound  = max number of preemptions (switching away from a thread that could continue);
+    fbound = max number of non-default choices at points where the running thread had blocked or ended
+             (None = unlimited, the classic CHESS setting; worlds with many threads need a finite value)."""
     out = []
-    base = preemptions(choices, start)
-    cost = base
+    cost = preemptions(choices, start)
+    fcost = sum(1 for (n, idx, run_en) in choices[:start] if idx != 0 and not run_en)
     for i in range(start, len(choices)):
         n, idx, run_en = choices[i]
         for alt in range(1, n):
             c = cost + (1 if run_en else 0)
-            if c <= bound:
+            f = fcost + (0 if run_en else 1)
+            if c <= bound and (fbound is None or f <= fbound):
                 out.append((tuple(ch[1] for ch in choices[:i]) + (alt,), tuple(ch[0] for ch in choices[:i + 1])))
-        if idx != 0 and run_en:
-            cost += 1
+        if idx != 0:
+            if run_en:
+                cost += 1
+            else:
+                fcost += 1
     return out
 
 
-def explore(run_one, bound, root=((), ()), on_exec=None, max_execs=None):
+def explore(run_one, bound, root=((), ()), on_exec=None, max_execs=None, fbound=None):
     """DFS below `root` = (prefix, expected widths). run_one(prefix, expect) -> Execution-like with
     .choices and .aborted. Returns number of executions.
 
@@ -530,20 +559,31 @@ def explore(run_one, bound, root=((), ()), on_exec=None, max_execs=None):
     moments) and performed explicitly between executions, in the controller thread."""
     import gc
     gc.disable()
-    stack = [root]
+    # The DFS stack can hold 10^5 prefixes: keep them as bytes (invisible to the cyclic collector)
+    def enc(item):
+        return bytes(item[0]) + b'\xff' + bytes(item[1])
+
+    def dec(b):
+        i = b.index(b'\xff')
+        return tuple(b[:i]), tuple(b[i + 1:])
+    stack = [enc(root)]
     n = 0
     while stack:
-        prefix, expect = stack.pop()
+        prefix, expect = dec(stack.pop())
         x = run_one(prefix, expect)
         n += 1
-        if n % 25 == 0:
+        if n % 20 == 0:
             gc.collect()
         if x.aborted == 'divergence':
             raise Divergence(f'prefix {prefix} did not replay (expected widths {expect}, got '
                              f'{[c[0] for c in x.choices]})')
         if on_exec is not None:
             on_exec(prefix, x)
-        stack.extend(children(x.choices, len(prefix), bound))
+        stack.extend(enc(k) for k in children(x.choices, len(prefix), bound, fbound))
+        sch = getattr(x, 'sched', None)
+        if sch is not None:
+            sch.dispose()
+        x = None
         if max_execs is not None and n >= max_execs:
             return n, False
     return n, True
